@@ -1123,6 +1123,10 @@ def convpipe_family(tier, seed):
             DstInner = dataclasses.make_dataclass(f"DstInner", [(n, int) if not opt else (n, int, dataclasses.field(default=0))
                                                                 for n, opt in inner["dst_fields"]])
             ns["SrcInner"], ns["DstInner"] = SrcInner, DstInner
+            if cfg.get("same_inner"):
+                # the nested field has the very same class on both sides: it is still rebuilt field by field (a recipe may aim
+                # at its fields)
+                ns["SrcInner"] = DstInner
         sf = [(n, int) for n in cfg["src_fields"]]
         df = [(n, int) if not opt else (n, int, dataclasses.field(default=0)) for n, opt in cfg["dst_fields"]]
         if cfg.get("dict_field"):
@@ -1293,6 +1297,15 @@ def convpipe_family(tier, seed):
          "recipe": [{"k": "const", "dst": "c", "value": [1, 2], "level": "top"}]},
         {"src_fields": ["a"], "dst_fields": [("a", False), ("c", False)], "params": [], "inner": {"src_fields": ["a"], "dst_fields": [("a", False), ("p", False)]},
          "recipe": [{"k": "const", "dst": "c", "value": {"k": [1]}, "level": "top"}, {"k": "const", "dst": "p", "value": [[3]], "level": "inner"}]},
+        # the SAME class nested on both sides, with and without recipe elements aimed at its fields
+        {"src_fields": ["a"], "dst_fields": [("a", False)], "params": [], "same_inner": True,
+         "inner": {"src_fields": ["a", "p"], "dst_fields": [("a", False), ("p", False)]},
+         "recipe": [{"k": "const", "dst": "p", "value": 5, "level": "inner"}]},
+        {"src_fields": ["a"], "dst_fields": [("a", False)], "params": ["q"], "same_inner": True,
+         "inner": {"src_fields": ["a", "p"], "dst_fields": [("a", False), ("p", False)]},
+         "recipe": [{"k": "link_param", "param": "q", "dst": "p", "level": "inner"}]},
+        {"src_fields": ["a"], "dst_fields": [("a", False)], "params": [], "same_inner": True,
+         "inner": {"src_fields": ["a", "p"], "dst_fields": [("a", False), ("p", False)]}, "recipe": []},
         # containers of the very same type on both sides are still converted element-wise (a same-type user coercer reaches the
         # elements; the result never holds the source's container)
         {"src_fields": ["a"], "dst_fields": [("a", False)], "params": [], "dict_field": True, "recipe": []},
